@@ -4,6 +4,7 @@ import json
 from vt import core
 from vt.main import decide
 from props import resolve_common as rc
+from translate import resolve_tr
 
 
 def enum_digraphs(n, r, limit):
@@ -38,9 +39,60 @@ def enum_digraphs(n, r, limit):
     return cases
 
 
-def run(chk):
-    chk.prove([])
+def chain_cases():
+    """Chains r0 -> r1 -> ... -> rn (ri waits for r(i+1), rn for nothing) with the head in one file and the rest
+    in the other, both placements, the rest in both textual orders, decided the way real providers do
+    (needs_to_be_resolved on the object holding the awaited reference, i.e. another model's resolver)."""
     cases = []
+    for n in range(1, 5):
+        for head_in_main in (True, False):
+            for rev in (False, True):
+                for one_file in (False, True):
+                    if one_file and not head_in_main:
+                        continue
+                    rest = list(range(1, n + 1))
+                    if rev:
+                        rest.reverse()
+                    if one_file:
+                        per = {"main.c8": [0] + rest}
+                    else:
+                        per = {"main.c8": [0], "f1.c8": rest} if head_in_main else {"main.c8": rest, "f1.c8": [0]}
+                    texts, layout, slots, table = {}, {}, [], {}
+                    for f, ids in per.items():
+                        lines = ['import "f1.c8"'] if (f == "main.c8" and len(per) == 2) else []
+                        lines += ["item t%d" % i for i in ids] + ["item tx"]
+                        lines.append("holder h0" + "".join(" single r%d" % i for i in ids))
+                        for pi, i in enumerate(ids):
+                            layout[str(i)] = {"file": f, "slot": i, "many": False, "pos": pi}
+                            slots.append((i, False, "%s/h0/%d" % (f, pi)))
+                            table[str(i)] = {"delay": 0, "deps": [i + 1] if i < n else [], "never": False, "tgt": i}
+                        texts[f] = "\n".join(lines) + "\n"
+                    c = {"files": texts, "main": "main.c8", "table": table, "layout": layout, "slots": slots,
+                         "file_order": list(per), "nrefs": n + 1, "kind": "chain-query"}
+                    cases.append(rc.set_query(c))
+    # a cycle in the imported file plus a reference of the main file waiting for it; two healthy references
+    for head_in_main in (True, False):
+        per = {"main.c8": [0, 1], "f1.c8": [2, 3, 4, 5]} if head_in_main else {"main.c8": [2, 3, 4, 5], "f1.c8": [0, 1]}
+        deps = {0: [4], 1: [3], 2: [], 3: [2], 4: [5], 5: [4]}
+        texts, layout, slots, table = {}, {}, [], {}
+        for f, ids in per.items():
+            lines = ['import "f1.c8"'] if f == "main.c8" else []
+            lines += ["item t%d" % i for i in ids] + ["item tx"]
+            lines.append("holder h0" + "".join(" single r%d" % i for i in ids))
+            for pi, i in enumerate(ids):
+                layout[str(i)] = {"file": f, "slot": i, "many": False, "pos": pi}
+                slots.append((i, False, "%s/h0/%d" % (f, pi)))
+                table[str(i)] = {"delay": 0, "deps": deps[i], "never": False, "tgt": i}
+            texts[f] = "\n".join(lines) + "\n"
+        c = {"files": texts, "main": "main.c8", "table": table, "layout": layout, "slots": slots,
+             "file_order": list(per), "nrefs": 6, "kind": "chain-query"}
+        cases.append(rc.set_query(c))
+    return cases
+
+
+def run(chk):
+    chk.prove([resolve_tr.translate])
+    cases = rc.corpus_cases("C09") + chain_cases()
     cases += enum_digraphs(2, chk.rng.split("e2"), 16)
     cases += enum_digraphs(3, chk.rng.split("e3"), 512 if chk.thorough else 150)
     cases += enum_digraphs(4, chk.rng.split("e4"), 3000 if chk.thorough else 150)
@@ -49,6 +101,9 @@ def run(chk):
         r = chk.rng.split(i)
         c = rc.build_case(r, r.range(2, 10), r.weighted([(1, 4), (2, 3), (3, 2)]), "deps")
         c["kind"] = "random"
+        if i % 3 == 2:
+            rc.set_query(c)
+            c["kind"] = "random-query"
         cases.append(c)
     impl, vals, errs = rc.run_cases(chk, cases)
     disagreements, failures = [], []
@@ -58,12 +113,12 @@ def run(chk):
         o = impl[id(c)]
         ic = rc.impl_canon(c, o)
         postponed = len(o["log"]) > c["nrefs"]
-        chk.count(json.dumps([c["files"], c["table"]], sort_keys=True), nontrivial=postponed)
+        chk.count(json.dumps([c["files"], c["table"], bool(c.get("where"))], sort_keys=True), nontrivial=postponed)
         chk.stat(c["kind"])
         chk.stat("outcome=" + o["outcome"].split(":")[0])
         chk.stat("rounds~%d" % min(6, (len(o["log"]) + c["nrefs"] - 1) // max(1, c["nrefs"])))
         if mv is not None and ic != mv:
-            disagreements.append({"case": {"files": c["files"], "table": c["table"]}, "impl": ic, "model": mv})
+            disagreements.append({"case": {"files": c["files"], "table": c["table"], "where": c.get("where")}, "impl": ic, "model": mv})
         # property oracle: verdict = (least fixpoint covers everything); names = the complement; targets fixed
         good = rc.lfp(c)
         allr = set(range(c["nrefs"]))
@@ -90,7 +145,7 @@ def run(chk):
         if len(o["log"]) > (c["nrefs"] + 1) * c["nrefs"] + 1:
             bad = "more provider calls than (n+1) rounds allow: %d" % len(o["log"])
         if bad:
-            failures.append({"case": {"files": c["files"], "table": c["table"]}, "impl": o, "what": bad, "tags": []})
+            failures.append({"case": {"files": c["files"], "table": c["table"], "where": c.get("where")}, "impl": o, "what": bad, "tags": []})
         if chk.cov["evaluations"] % 150 == 11:
             chk.sample({"files": c["files"], "table": c["table"], "impl": ic})
     chk.cov["rule"] = ("dependency digraphs between references: all on 2 references, %s on 3 and 4 references (spread over one or two files), plus %d random structures on 2-10 references in "
